@@ -67,6 +67,11 @@ fn(
         # C12 / C02: nothing is appended once the end of the body was requested -- a push that
         # returns normally found the buffer unsealed (whether or not sealed data is still queued)
         ("C12.push.sealed-rejects", "not old(self._complete)", "C12,C02,C08"),
+        # C08 "every waiting send returns promptly -- none waits forever": a push clears the
+        # wake-up event only after it has itself been woken from it (it consumes its own wake-up).
+        # Clearing it at any other moment takes the wake-up -- on the trio worker the event object
+        # itself -- away from another send of the same stream that is parked on it.
+        ("C08.push.clears-only-its-own-wake-up", "trace_all('event_clears', 'c', implies(same(c[0], self._paused), c[1]))", "C08,C16"),
     ],
     raises={"BufferCompleteError": {"when": "self._complete", "ensures": [("push.raise.unchanged", "self.buffer == old(self.buffer)", "C02")]}},
     props=("C08",),
